@@ -404,9 +404,9 @@ func c11pipeline(r *core.Run) {
 		}
 		got, ok := ls.pollUntilRune(0x1d)
 		<-feederDone
+		ls.judgeSentinel(r, ok, fmt.Sprintf("pipeline %d", i))
 		ls.fini()
 		if !ok {
-			r.Inconclusive("pipeline: sentinel not delivered")
 			continue
 		}
 		r.Case(fmt.Sprintf("pipe|%d", i))
@@ -452,10 +452,10 @@ func c11trickle(r *core.Run) {
 		}
 		ls.tty.Feed([]byte{0x1d})
 		got, ok := wait()
+		ls.judgeSentinel(r, ok, "trickle")
 		ls.fini()
 		switch {
 		case !ok:
-			r.Inconclusive("trickle: sentinel not delivered")
 			r.Case("")
 		case maxGap > 40*time.Millisecond:
 			r.Count("trickle_rounds_with_compromised_timing", 1)
